@@ -183,6 +183,10 @@ func renderEexec(v *eexecVec, rng *rand.Rand) ([]byte, error) {
 						if i%3 == 0 {
 							out = append(out, '\t', ' ')
 						}
+					case "wide3":
+						if i%2 == 0 {
+							out = append(out, ' ', '\t', '\n')
+						}
 					case "at4", "at5", "at6", "at7", "at9":
 						var k int
 						fmt.Sscanf(v.Ws, "at%d", &k)
@@ -195,16 +199,26 @@ func renderEexec(v *eexecVec, rng *rand.Rand) ([]byte, error) {
 			}
 		}
 	}
-	// position of the section: for most vectors a leading comment moves the first cipher byte to the
-	// offsets around the scanner's refill boundary (the four peeked lead bytes then straddle a refill)
+	// position of the section: for most vectors a leading comment moves the first cipher byte - or, for
+	// a third of them, the last one - to the offsets around the scanner's refill boundary (the four
+	// peeked lead bytes, or the look-ahead behind the closing line end, then straddle a refill)
+	prefix := out
+	out = nil
+	encSection(plain)
+	sec := out
+	out = prefix
 	if tgt := []int{0, 509, 510, 511, 512, 513, 1021, 1023}[rng.Intn(8)]; tgt > 0 {
-		pad := ((tgt-len(out))%512 + 512) % 512
+		ref := len(out)
+		if rng.Intn(3) == 0 {
+			ref = len(out) + len(sec) - 1
+		}
+		pad := ((tgt-ref)%512 + 512) % 512
 		if pad < 2 {
 			pad += 512
 		}
 		out = append([]byte("%"+strings.Repeat("x", pad-2)+"\n"), out...)
 	}
-	encSection(plain)
+	out = append(out, sec...)
 	switch v.Trailer {
 	case "zeros":
 		out = append(out, '\n')
